@@ -47,7 +47,7 @@ CHECKS = {
          "12 payload classes x 11 verifier outcomes (132, complete) run on the Subscriber's real validator via the verif export: verdict must equal the reference mapping, verifier never called for undecodable/invalid payloads, ValidatorData is the decoded header, no panic escapes, waiting for a late SetVerifier works; 11 classes are additionally published over a 3-node gossipsub line to observe delivery to Subscriptions and relay.",
          "Peer-score effects are inferred from the validation result (pubsub semantics trusted).", "2.4 C11"),
  "C13": ("E1-netx", "fault_enumeration",
-         "exhaustive enumeration of per-peer answer assignments (19-entry catalogue) and arrival orders for 1-3 (thorough 4) trusted peers against the real Exchange.Get/GetByHeight",
+         "exhaustive enumeration of per-peer answer assignments (20-entry catalogue; single-peer cases also after one successful warm-up request) and arrival orders for 1-3 (thorough 4) trusted peers against the real Exchange.Get/GetByHeight",
          "All assignments for n=1,2, reduced x full for n=3 (thorough: full 17^3, n=4 with <=2 bad), all 6 arrival permutations for the reduced catalogue; x {Get, GetByHeight} x {present, absent, zero target} x chain id {set, unset} x transport {honours, ignores deadlines}. Oracle: never (zero,nil), no panic, returned header validated/right chain/right hash, some peer really sent it, first valid answer wins, error when none valid, returns by the caller's deadline.",
          "A header type whose own UnmarshalBinary panics is excluded (type-level).", "2.4 C13"),
  "C18": ("E1-netx", "model_checking",
